@@ -40,9 +40,12 @@ class TypeGen:
             return self.cls()
         sub = lambda: self.gen(depth - 1)
         if kind == "gen":
-            o = rng.choice([C_LIST, C_DICT] + self.generic_user * 2)
+            o = rng.choice([C_LIST, C_DICT, C_TUPLE] + self.generic_user * 2)
             if o == C_DICT:
                 return ["gen", o, [sub(), sub()]]
+            if o == C_TUPLE:
+                # the one origin whose aliases come with different numbers of arguments
+                return ["gen", o, [sub() for _ in range(rng.choice([1, 2, 2, 3]))]]
             return ["gen", o, [sub()]]
         if kind == "type":
             return ["gen", C_TYPE, [sub()]]
